@@ -1,4 +1,5 @@
 import EvoModel.Model.Basic
+import EvoModel.Model.Hex
 import EvoModel.Model.SettingsProc
 /-! driver operations of C19: solo traces of the settings routines (trace correspondence) and
 arbitrary schedules of several processes (crash / interleaving replay). -/
@@ -7,13 +8,15 @@ open Evo Evo.FS
 
 def lackingDoc : Doc := Evo.Gen.defaultKeys.drop 3
 
-def parseV : String → Option File
+/-- `ver:<hex>` = a complete assets_version holding that string -/
+def parseV (s : String) : Option File :=
+  match s with
   | "absent" => some .absent
   | "current" => some (.full (.ver current))
-  | "old" => some (.full (.ver 0))
+  | "old" => some (.full (.ver "v0.0.1"))
   | "empty" => some .empty
   | "torn" => some .torn
-  | _ => none
+  | _ => if s.startsWith "ver:" then (Hex.unhex (s.drop 4).toString).map (fun v => .full (.ver v)) else none
 
 def parseS : String → Option File
   | "absent" => some .absent
